@@ -34,6 +34,9 @@ def payload_of(cfg: tuple[Any, ...], name: str) -> Any:
     return DPTArray((10 if name == "A" else 20,))
 
 
+STATES: set[Any] = set()
+
+
 def run_case(ci: int, seq: tuple[int, ...]) -> list[tuple[str, str]]:
     cfg = CONFIGS[ci]
     cd, per, vt = cfg
@@ -95,6 +98,7 @@ def run_case(ci: int, seq: tuple[int, ...]) -> list[tuple[str, str]]:
                 viols.append((exc_sig(f"call-raises:{ev.split(':')[0]}", exc), f"{exc!r}; trace={trace}"))
                 break
             loop.settle()
+            STATES.add((ci, connected, repr(dev.sensor_value.last_payload), repr(dev._payload_after_cooldown), last_set, loop.timer_profile()))  # noqa: SLF001
         end_events = loop.time()
         w.run(HORIZON)
         viols += check_log(cfg, log, end_events, loop.time(), trace)
@@ -230,6 +234,9 @@ def worker(k: int, n: int, depth: int) -> Part:
                 part.viol(s, d, [ci, list(seq)], rank=(len(seq), ci, seq))
             if part.evaluations <= 2:
                 part.sample([ci, [EVENTS[e] for e in seq]])
+    for k_ in STATES:
+        part.state(k_)
+    STATES.clear()
     return part
 
 
